@@ -20,6 +20,7 @@
 #include "mem_node.h"
 #include "stmem.h"
 #include "Generic.h"
+#include "debug/Stream.h"
 
 #include <cstdio>
 #include <cstring>
@@ -245,6 +246,10 @@ int main(int argc, char **argv) {
         printf("pageSize %d\n", SM_PAGE_SIZE);
         return 0;
     }
+    // the debug module buffers "early" critical messages (at most 1000) until told where its output goes
+    Debug::BanCacheLogUse();
+    Debug::SettleStderr();
+    Debug::SettleSyslog();
     std::string line;
     while (std::getline(std::cin, line)) {
         const std::string out = runLine(line);
